@@ -224,9 +224,13 @@ def coq_configure():
 
 
 def coq_make(targets, keep_going=False, timeout=3000):
-    coq_configure()
-    cmd = ['timeout', str(timeout), 'make', f'-j{NPROC}'] + (['-k'] if keep_going else []) + targets
-    return sh(cmd, cwd=COQ, timeout=timeout + 60)
+    """make under an exclusive lock (several checks may run concurrently)."""
+    import fcntl
+    with open(os.path.join(COQ, '.build.lock'), 'w') as lk:
+        fcntl.flock(lk, fcntl.LOCK_EX)
+        coq_configure()
+        cmd = ['timeout', str(timeout), 'make', f'-j{NPROC}'] + (['-k'] if keep_going else []) + targets
+        return sh(cmd, cwd=COQ, timeout=timeout + 60)
 
 
 def forbidden_scan():
@@ -250,11 +254,14 @@ def check_obligations(props_file):
     printed = re.findall(r'^\s*Print Assumptions\s+([A-Za-z0-9_\'.]+)\s*\.', src_nc, flags=re.M)
     obl = {n: {'name': n, 'status': 'not-checked', 'assumptions': None} for n in names}
     vo = path + 'o'
-    try:
-        os.remove(os.path.join(COQ, vo))
-    except FileNotFoundError:
-        pass
-    rc, log = coq_make([vo])
+    import fcntl
+    with open(os.path.join(COQ, '.props.lock'), 'w') as lk:
+        fcntl.flock(lk, fcntl.LOCK_EX)
+        try:
+            os.remove(os.path.join(COQ, vo))
+        except FileNotFoundError:
+            pass
+        rc, log = coq_make([vo])
     if rc != 0:
         # which theorem is the broken one?  best effort from the error text
         for o in obl.values():
